@@ -465,7 +465,7 @@ example : WellTyped (realCtx [] 0) ⟨Store.empty, none, 12, default⟩
 
 def valOkB (c : Ctx) (name : String) (v : AVal) : Bool :=
   (match inspected.lookup name with | some k => v.kind == k | none => true) &&
-  (match v with | .int n => decide (0 ≤ n) | _ => true) &&
+  (match v with | .int n => name != "Cryptographic Length" || decide (0 ≤ n) | _ => true) &&
   (match v with
    | .other => (match c.rule? name with | some r => r.multivalued | none => true)
    | _ => true)
@@ -475,7 +475,7 @@ theorem valOkB_sound {c : Ctx} {name : String} {v : AVal} (h : valOkB c name v =
   obtain ⟨⟨h1, h2⟩, h3⟩ := h
   refine ⟨?_, ?_, ?_⟩
   · intro k hk; rw [hk] at h1; simpa using h1
-  · cases v <;> simp_all [AVal.nonneg]
+  · intro hn; cases v <;> simp_all [AVal.nonneg]
   · intro hv r hr; subst hv; simp only [hr] at h3; exact h3
 
 def templateOkB (c : Ctx) : Option Template → Bool
@@ -501,7 +501,7 @@ def fitsCreateB (c : Ctx) (ver : Nat) (tmpl : Option Template) : Crypto → Bool
   | .kmipError _ => true
   | _ => false
 
-theorem reqLen_msg {d : AttrDict} {m1 m2 : String} {len : Nat} (h : reqLen d m1 = .ok len) : reqLen d m2 = .ok len := by
+theorem reqLen_msg {d : AttrDict} {m1 m2 : String} {len : Int} (h : reqLen d m1 = .ok len) : reqLen d m2 = .ok len := by
   unfold reqLen at *
   cases hg : d.get "Cryptographic Length" with
   | none => rw [hg] at h; cases h
